@@ -193,6 +193,9 @@ func (c *consRunner) Do(line string) {
 			c.w.env.fail["transfer.Transfer"] = int(op.i("tfail"))
 		}
 		defer delete(c.w.env.fail, "transfer.Transfer")
+		if rep := c.replicaDigests(); rep != "" {
+			extra = append(extra, "rep", rep)
+		}
 		err = c.guard(func() error {
 			var e error
 			ups, e = c.w.mod.EndBlock(c.w.ctx)
@@ -412,4 +415,42 @@ func init() {
 			}
 		},
 	}
+}
+
+// replicas of the consumer's EndBlock (C18): executed `replicas` times on throw-away branches of the
+// current state; returned updates, every key/value of the consumer store, packets and environment
+// calls must agree byte for byte
+func (c *consRunner) replicaDigests() (out string) {
+	if replicas == 0 || len(c.w.env.fail) > 0 {
+		return ""
+	}
+	defer func() {
+		if r := recover(); r != nil {
+			out = ""
+		}
+	}()
+	w := c.w
+	var first map[string]string
+	for i := 0; i < replicas; i++ {
+		cctx, _ := w.ctx.CacheContext()
+		ups, err := w.mod.EndBlock(cctx)
+		d := map[string]string{"~ret": fmt.Sprint(w.pool.fmtUpdates(ups), err != nil)}
+		it := cctx.KVStore(w.ckey).Iterator(nil, nil)
+		for ; it.Valid(); it.Next() {
+			d[fmt.Sprintf("%x", it.Key())] = fmt.Sprintf("%x", it.Value())
+		}
+		it.Close()
+		for j, sp := range w.chk.takeSent(cctx) {
+			d[fmt.Sprintf("~sent%d", j)] = fmt.Sprintf("%s/%s/%d/%x/%d", sp.Port, sp.Channel, sp.Seq, sp.Data, sp.Timeout)
+		}
+		d["~effects"] = strings.Join(w.env.takeEffects(cctx), "|")
+		if first == nil {
+			first = d
+			continue
+		}
+		if diff := diffKeys(first, d); len(diff) > 0 {
+			return "differ:key=" + diff[0]
+		}
+	}
+	return "same"
 }
